@@ -848,5 +848,216 @@ theorem clears_owners {units : List (UnitM N)} {prog : List (Instr N)} (hprog : 
     intro x _
     exact clearsOf_owners hprog qs unit _ r x.idx
 
+/-- what a granted request of the cycle is: its owner is hosted in a unit holding the matching lock, gets label `U`
+there, and accesses `r` that way -/
+theorem mem_rowReqs {p : Proc N} (hn : (p.allUnits.map (·.name)).Nodup) {prog : List (Instr N)} {qs : Queues N}
+    {old F : Util N} (hk : (AMap.keys F).Nodup) {r : N} {x : Req} :
+    x ∈ rowReqs p.allUnits prog qs old F r ↔
+      ∃ u ∈ p.allUnits, (∃ h ∈ F.get u.name, h.idx = x.2) ∧ labelOf prog qs u (old.get u.name) x.2 = .U ∧
+        lockOf x.1 u = true ∧ ∃ ins, prog[x.2]? = some ins ∧ (if x.1 then ins.dst = r else r ∈ ins.srcs) := by
+  unfold rowReqs
+  rw [List.mem_flatMap]
+  constructor
+  · rintro ⟨e, he, hx⟩
+    unfold entryReqs at hx
+    cases hlu : lookupUnit p.allUnits e.1 with
+    | none => simp [hlu] at hx
+    | some unit =>
+      simp only [hlu, List.mem_flatMap] at hx
+      obtain ⟨h, hh, hx⟩ := hx
+      obtain ⟨h1, h2, h3, h4⟩ := mem_instrReqs.1 hx
+      obtain ⟨hu, hname⟩ := lookupUnit_some hlu
+      have hget : F.get e.1 = e.2 := Util.get_of_mem hk he
+      refine ⟨unit, hu, ⟨h, by rw [hname, hget]; exact hh, h1.symm⟩, ?_, h3, ?_⟩
+      · rw [hname, h1]; exact h2
+      · rw [h1]; exact h4
+  · rintro ⟨u, hu, ⟨h, hh, hidx⟩, hl, hlock, hins⟩
+    have hne : F.get u.name ≠ [] := fun e => by rw [e] at hh; cases hh
+    refine ⟨(u.name, F.get u.name), Util.mem_of_get_ne_nil hne, ?_⟩
+    unfold entryReqs
+    simp only [lookupUnit_of_mem hn hu, List.mem_flatMap]
+    refine ⟨h, hh, mem_instrReqs.2 ⟨hidx.symm, ?_, hlock, ?_⟩⟩
+    · rw [hidx]; exact hl
+    · rw [hidx]; exact hins
+
+theorem nodup_of_map_fst_nodup {α β : Type} {l : List (α × β)} (h : (l.map (·.1)).Nodup) : l.Nodup := by
+  induction l with
+  | nil => exact List.nodup_nil
+  | cons a t ih =>
+    simp only [List.map_cons, List.nodup_cons, List.mem_map, not_exists, not_and] at h
+    exact List.nodup_cons.2 ⟨fun hm => h.1 a hm rfl, ih h.2⟩
+
+/-- no request is granted twice in one cycle -/
+theorem rowReqs_nodup (units : List (UnitM N)) (prog : List (Instr N)) (qs : Queues N) (old : Util N) {F : Util N}
+    (hk : (AMap.keys F).Nodup) (hnd : RowND F) (r : N) : (rowReqs units prog qs old F r).Nodup := by
+  unfold rowReqs
+  have key : ∀ e ∈ AMap.toList F, ∀ x ∈ entryReqs units prog qs old r e, x.2 ∈ (F.get e.1).map (·.idx) := by
+    intro e he x hx
+    unfold entryReqs at hx
+    cases hlu : lookupUnit units e.1 with
+    | none => simp [hlu] at hx
+    | some unit =>
+      simp only [hlu, List.mem_flatMap] at hx
+      obtain ⟨h, hh, hx⟩ := hx
+      rw [Util.get_of_mem hk he]
+      exact List.mem_map.2 ⟨h, hh, ((mem_instrReqs.1 hx).1).symm⟩
+  apply nodup_flatMap_of _ _ (nodup_of_map_fst_nodup hk)
+  · intro e he
+    unfold entryReqs
+    cases hlu : lookupUnit units e.1 with
+    | none => exact List.nodup_nil
+    | some unit =>
+      simp only
+      have hidx : (e.2.map (·.idx)).Nodup := by
+        have := hnd.nodup_unit e.1
+        rwa [Util.get_of_mem hk he] at this
+      apply nodup_flatMap_of
+      · exact (List.Nodup.sublist (List.Sublist.refl _) (List.Pairwise.of_map _ (fun _ _ h => h) hidx |>.imp
+          (fun {a b} hab e' => hab (by rw [e']))))
+      · intro h _; exact instrReqs_nodup _ _ _ _ _ _
+      · intro a ha b hb x hxa hxb
+        have h1 := (mem_instrReqs.1 hxa).1
+        have h2 := (mem_instrReqs.1 hxb).1
+        exact eq_of_map_eq_of_nodup' (·.idx) hidx ha hb (h1.symm.trans h2)
+  · intro a ha b hb x hxa hxb
+    have h1 := key a ha x hxa
+    have h2 := key b hb x hxb
+    have hname := hnd.unique_host a.1 b.1 x.2 h1 h2
+    have ea : F.get a.1 = a.2 := Util.get_of_mem hk ha
+    have eb : F.get b.1 = b.2 := Util.get_of_mem hk hb
+    obtain ⟨a1, a2⟩ := a
+    obtain ⟨b1, b2⟩ := b
+    simp only at hname ea eb
+    subst hname
+    rw [← ea, ← eb]
+
+/-- every request granted in the cycle could be served on the queue as it was at the start of the cycle -/
+theorem rowReqs_servable {p : Proc N} (hn : (p.allUnits.map (·.name)).Nodup) {prog : List (Instr N)}
+    {qs : Queues N} {old F : Util N} (hk : (AMap.keys F).Nodup) {r : N} {x : Req}
+    (hx : x ∈ rowReqs p.allUnits prog qs old F r) : (qs.get r).canAccess x.1 x.2 = some true := by
+  obtain ⟨u, _, _, hl, hlock, ins, hins, hacc⟩ := (mem_rowReqs hn hk).1 hx
+  obtain ⟨_, ins', hins', hra⟩ := (labelOf_U_iff _ _ _ _ _).1 hl
+  rw [hins] at hins'
+  cases hins'
+  obtain ⟨_, hrd, hwr⟩ := (regsAvail_some_iff _ _ _ _ _).1 hra
+  obtain ⟨w, o⟩ := x
+  cases w with
+  | false => exact hrd (by simpa [lockOf] using hlock) r (by simpa using hacc)
+  | true =>
+    have : ins.dst = r := by simpa using hacc
+    subst this
+    exact hwr (by simpa [lockOf] using hlock)
+
+/-- the labelled record, unit by unit: same instructions, labels `labelOf` w.r.t. the unit itself -/
+theorem mem_labelled {p : Proc N} (hn : (p.allUnits.map (·.name)).Nodup) {prog : List (Instr N)} {qs : Queues N}
+    {old F : Util N} {lab : Util N × List (N × Nat)} (hlab : labelAll p.allUnits prog qs old F = .ok lab)
+    {u : UnitM N} (hu : u ∈ p.allUnits) {h : HI} :
+    h ∈ lab.1.get u.name ↔ ∃ y ∈ F.get u.name, h = ⟨y.idx, labelOf prog qs u (old.get u.name) y.idx⟩ := by
+  have hg := labelAll_get hlab u.name
+  by_cases hne : F.get u.name = []
+  · rw [hg.1 hne, hne]; simp
+  · obtain ⟨unit, hlu, e⟩ := hg.2 hne
+    rw [lookupUnit_of_mem hn hu] at hlu
+    cases hlu
+    rw [e, List.mem_map]
+    constructor
+    · rintro ⟨y, hy, rfl⟩; exact ⟨y, hy, rfl⟩
+    · rintro ⟨y, hy, rfl⟩; exact ⟨y, hy, rfl⟩
+
+/-- the requests granted in the cycle are exactly the accesses the new row shows -/
+theorem mem_rowReqs_iff_accIn {p : Proc N} (hn : (p.allUnits.map (·.name)).Nodup) {prog : List (Instr N)}
+    {qs : Queues N} {old F : Util N} (hk : (AMap.keys F).Nodup) {lab : Util N × List (N × Nat)}
+    (hlab : labelAll p.allUnits prog qs old F = .ok lab) {r : N} {x : Req} (hx : x ∈ reqsOf prog r) :
+    x ∈ rowReqs p.allUnits prog qs old F r ↔ accIn p lab.1 x.1 x.2 = true := by
+  rw [mem_rowReqs hn hk, accIn_iff]
+  constructor
+  · rintro ⟨u, hu, ⟨h, hh, hidx⟩, hl, hlock, _⟩
+    refine ⟨u, hu, hlock, (mem_labelled hn hlab hu).2 ⟨h, hh, ?_⟩⟩
+    rw [hidx, hl]
+  · rintro ⟨u, hu, hlock, hm⟩
+    obtain ⟨y, hy, e⟩ := (mem_labelled hn hlab hu).1 hm
+    injection e with e1 e2
+    refine ⟨u, hu, ⟨y, hy, e1.symm⟩, ?_, hlock, mem_reqsOf.1 hx⟩
+    rw [e1]; exact e2.symm
+
+variable [LT N] [DecidableRel (α := N) (· < ·)]
+
+/-- **Path fact needed by the queue invariant** ("read before write"): an instruction examined in a unit that holds
+the write lock but not the read lock has performed its read access in an earlier cycle. (Follows from `wfProc`: on
+every route the read-locking unit is not after the write-locking unit — see `Lemmas/Routes`.) -/
+def ReadFirst (p : Proc N) (prog : List (Instr N)) (s : SimState N) : Prop :=
+  ∀ u ∈ p.allUnits, u.wr = true → u.rd = false →
+    ∀ x ∈ (fillCycle p prog s.util s.entered).1.get u.name,
+      wasLoaded (s.util.get u.name) x.idx = false → grantedB p s.table false x.idx = true
+
+/-- **The queue invariant is preserved by a cycle.** In particular no `dequeue` of the cycle fails or removes a request
+other than the one granted. -/
+theorem PlanInv.step {p : Proc N} {prog : List (Instr N)} (hwf : wfProc p = true) (hprog : ProgOK prog)
+    {s s' : SimState N} (hc : CoreInv p prog s) (hinv : PlanInv p prog s) (hrf : ReadFirst p prog s)
+    (hs : runCycle p prog s = .ok (some s')) : PlanInv p prog s' := by
+  obtain ⟨lab, qs, hlab, hclr, _, rfl⟩ := runCycle_eq_some hs
+  have hn := wfProc_nodup_names hwf
+  have hFb := hc.row.after_fillCycle hn prog
+  have hFnd := hc.nd.after_fillCycle hc.row hn (wfProc_preds_nodup hwf) (wfProc_self_not_pred hwf) prog
+  have hk := hFb.keys_nodup
+  have main : ∀ r, WFq (qs.get r) ∧
+      abs (qs.get r) = (abs (s.queues.get r)).filter
+        (fun x => decide (x ∉ rowReqs p.allUnits prog s.queues s.util (fillCycle p prog s.util s.entered).1 r)) := by
+    intro r
+    have hrun := applyClears_runHistory hclr r
+    rw [clears_owners hprog hlab r] at hrun
+    refine ⟨runHistory_wf (hinv.wf r) hrun, ?_⟩
+    have href := runHistory_refines (hinv.wf r)
+      ((rowReqs p.allUnits prog s.queues s.util (fillCycle p prog s.util s.entered).1 r).map (·.2))
+    rw [hrun] at href
+    have hbatch := runSpec_batch (hinv.sorted r).nodup
+      (rowReqs p.allUnits prog s.queues s.util (fillCycle p prog s.util s.entered).1 r)
+      (rowReqs_nodup _ _ _ _ hk hFnd r)
+      (fun x hx => by rw [← canAccess_refines (hinv.wf r)]; exact rowReqs_servable hn hk hx)
+      (by
+        intro o ho hpend
+        obtain ⟨u, hu, ⟨h, hh, hidx⟩, hl, hlock, ins, hins, hacc⟩ := (mem_rowReqs hn hk).1 ho
+        simp only at hidx hl hlock hins hacc
+        obtain ⟨hreq, hng⟩ := hinv.mem_abs.1 hpend
+        obtain ⟨ins', hins', hsrc⟩ := mem_reqsOf.1 hreq
+        simp only at hins' hsrc hng
+        rw [hins] at hins'; cases hins'
+        have hsrc' : r ∈ ins.srcs := by simpa using hsrc
+        have hacc' : ins.dst = r := by simpa using hacc
+        have hwr : u.wr = true := by simpa [lockOf] using hlock
+        cases hrd : u.rd with
+        | false =>
+          have hwl := ((labelOf_U_iff _ _ _ _ _).1 hl).1
+          have := hrf u hu hwr hrd h hh (by rw [hidx]; exact hwl)
+          rw [hidx, hng] at this; cases this
+        | true =>
+          have e1 : instrReqs prog s.queues u (s.util.get u.name) r h.idx = [(false, o), (true, o)] := by
+            unfold instrReqs
+            rw [hidx]
+            simp [hl, hins, hrd, hwr, hsrc', hacc']
+          rw [← e1]
+          have hne : (fillCycle p prog s.util s.entered).1.get u.name ≠ [] := fun e => by rw [e] at hh; cases hh
+          refine (List.Sublist.trans ?_
+            (sublist_flatMap_of_mem (entryReqs p.allUnits prog s.queues s.util r) (Util.mem_of_get_ne_nil hne)))
+          unfold entryReqs
+          simp only [lookupUnit_of_mem hn hu]
+          exact sublist_flatMap_of_mem (fun x => instrReqs prog s.queues u (s.util.get u.name) r x.idx) hh)
+    rw [hbatch] at href
+    simpa using href
+  refine ⟨fun r => (main r).1, fun r => ?_⟩
+  show abs (qs.get r) = (reqsOf prog r).filter (fun x => !grantedB p (lab.1 :: s.table) x.1 x.2)
+  rw [(main r).2, hinv.abs_eq, List.filter_filter]
+  apply List.filter_congr
+  intro x hx
+  rw [grantedB_cons]
+  have := mem_rowReqs_iff_accIn hn hk hlab hx
+  by_cases hm : x ∈ rowReqs p.allUnits prog s.queues s.util (fillCycle p prog s.util s.entered).1 r
+  · simp [hm, this.1 hm]
+  · have : accIn p lab.1 x.1 x.2 = false := by
+      cases h : accIn p lab.1 x.1 x.2 with
+      | false => rfl
+      | true => exact absurd (this.2 h) hm
+    simp [hm, this]
+
 end Hazards
 end ProcSim
